@@ -1,4 +1,5 @@
 import QuantemModel.Model.NdIndex
+import Mathlib.Data.List.Nodup
 /-! Lemmas about row-major arrays (`Model/NdIndex.lean`): `build`/`get`, index boxes. -/
 namespace QuantemModel.Nd
 
@@ -101,5 +102,122 @@ theorem mem_allIdx : ∀ {s j : List Nat}, j ∈ allIdx s ↔ InBox s j
         exact ⟨ha, mem_allIdx.mp hb⟩
       · rintro ⟨hi, hj⟩
         exact ⟨i, hi, j', mem_allIdx.mpr hj, rfl⟩
+
+
+/-! ### the axis order of an index expression -/
+
+theorem keptAxes_nodup (its : List Item) : (keptAxes its).Nodup :=
+  List.Nodup.filter _ List.nodup_range
+
+theorem listAxes_nodup (its : List Item) : (listAxes its).Nodup :=
+  List.Nodup.filter _ List.nodup_range
+
+theorem mem_keptAxes {its : List Item} {a : Nat} :
+    a ∈ keptAxes its ↔ a < its.length ∧ (its.getD a default).isInt = false := by
+  simp [keptAxes]
+
+theorem mem_listAxes {its : List Item} {a : Nat} :
+    a ∈ listAxes its ↔ a < its.length ∧ (its.getD a default).isList = true := by
+  simp [listAxes]
+
+theorem isList_not_isInt {it : Item} (h : it.isList = true) : it.isInt = false := by
+  cases it <;> simp_all [Item.isList, Item.isInt]
+
+theorem npOrder_nodup (sep : Bool) (its : List Item) : (npOrder sep its).Nodup := by
+  unfold npOrder
+  split
+  · rw [List.nodup_append]
+    refine ⟨listAxes_nodup its, List.Nodup.filter _ (keptAxes_nodup its), ?_⟩
+    intro a ha b hb hab
+    subst hab
+    have h1 := (mem_listAxes.mp ha).2
+    simp only [List.mem_filter] at hb
+    rw [h1] at hb
+    simp at hb
+  · exact keptAxes_nodup its
+
+theorem mem_npOrder {sep : Bool} {its : List Item} {a : Nat} :
+    a ∈ npOrder sep its ↔ a < its.length ∧ (its.getD a default).isInt = false := by
+  unfold npOrder
+  split
+  · simp only [List.mem_append, List.mem_filter, mem_listAxes, mem_keptAxes]
+    constructor
+    · rintro (⟨h1, h2⟩ | ⟨⟨h1, h2⟩, _⟩)
+      · exact ⟨h1, isList_not_isInt h2⟩
+      · exact ⟨h1, h2⟩
+    · rintro ⟨h1, h2⟩
+      by_cases hl : (its.getD a default).isList = true
+      · exact Or.inl ⟨h1, hl⟩
+      · exact Or.inr ⟨⟨h1, h2⟩, by simpa using hl⟩
+  · exact mem_keptAxes
+
+theorem npOrder_sorted (its : List Item) : (npOrder false its).Pairwise (· < ·) := by
+  unfold npOrder keptAxes
+  simp only [Bool.false_eq_true, if_false]
+  exact List.Pairwise.filter _ List.pairwise_lt_range
+
+/-- what a successful `plan` returns -/
+theorem plan_ok {shape : List Nat} {ix : List Item} {p : Plan} (h : plan shape ix = .ok p) :
+    expandItems shape.length ix = .ok p.items ∧
+    (p.multiList = false → p.order = npOrder (advSeparated ix) p.items) := by
+  unfold plan at h
+  split at h
+  · simp at h
+  · rename_i its hits
+    split at h
+    · simp at h
+    · split at h
+      · simp at h
+      · rename_i sels hsels
+        simp only at h
+        split at h
+        · split at h
+          · simp at h; subst h
+            refine ⟨hits, ?_⟩
+            intro hm
+            exfalso
+            rename_i l0 l1 rest hlens _
+            simp [Plan.multiList, hlens] at hm
+          · simp at h
+        · simp at h; subst h
+          exact ⟨hits, fun _ => rfl⟩
+
+theorem expandItems_length {nd : Nat} {ix its : List Item} (h : expandItems nd ix = .ok its) :
+    its.length = nd := by
+  unfold expandItems at h
+  simp only at h
+  split at h
+  · simp at h
+  · split at h
+    · simp at h
+    · rename_i h1 h2
+      simp at h
+      subst h
+      split
+      · rename_i hE
+        have hex : ∃ x ∈ ix, Item.isEllipsis x = true := by
+          by_contra hne
+          have : ix.filter Item.isEllipsis = [] := by
+            rw [List.filter_eq_nil_iff]
+            intro a ha hia
+            exact hne ⟨a, ha, hia⟩
+          rw [this] at hE
+          simp at hE
+        have hpos : List.findIdx Item.isEllipsis ix < ix.length := by
+          obtain ⟨x, hx, hxe⟩ := hex
+          exact List.findIdx_lt_length_of_exists ⟨x, hx, hxe⟩
+        simp only [List.length_append, List.length_take, List.length_replicate, List.length_drop]
+        omega
+      · simp only [List.length_append, List.length_replicate]
+        have hle : (ix.filter Item.isEllipsis).length ≤ ix.length := List.length_filter_le _ _
+        omega
+
+theorem srcIdx_axis (sels : List Sel) (order j : List Nat) (hn : order.Nodup) (k : Nat)
+    (hk : k < order.length) (ha : order[k] < sels.length) :
+    (srcIdx sels order j)[order[k]]? = some ((sels.getD order[k] default).at (j.getD k 0)) := by
+  unfold srcIdx
+  rw [List.getElem?_map, List.getElem?_range ha]
+  simp only [Option.map_some]
+  rw [hn.idxOf_getElem k hk]
 
 end QuantemModel.Nd
